@@ -318,6 +318,12 @@ func (fr *Frame) unop(x *ssa.UnOp) {
 		fr.set(x, &Val{T: not(vc.term(v)), Typ: x.Type()})
 	case token.SUB:
 		t := sub("0", vc.term(v))
+		if lo, _, ok := intRange(x.Type()); ok && lo.Sign() < 0 {
+			// signed negation is modelled exactly: the one value without a positive twin negates to itself
+			// (found the hard way: -time.Duration(math.MinInt64) in a window check)
+			fr.set(x, fr.defineVal(x, ite(eq(vc.term(v), intLit(lo)), intLit(lo), t)))
+			return
+		}
 		fr.set(x, fr.defineVal(x, fr.wrap(t, x.Type())))
 	case token.XOR:
 		// bitwise complement
